@@ -73,6 +73,14 @@ def run_cli(argv):
         return code, err.getvalue()
 
 
+def run_module(argv):
+    """`python -m emsarray ...` in a fresh interpreter: (exit status, stderr)"""
+    import subprocess
+    import sys
+    r = subprocess.run([sys.executable, '-W', 'ignore', '-m', 'emsarray'] + list(argv), capture_output=True, text=True, timeout=300)
+    return r.returncode, r.stderr
+
+
 def datasets_equal(a, b):
     if sorted(map(str, a.variables)) != sorted(map(str, b.variables)):
         return f'variables differ: {sorted(map(str, a.variables))} vs {sorted(map(str, b.variables))}'
@@ -282,6 +290,25 @@ def run(ctx):
                     if not os.path.exists(a) or file_bytes(a) != file_bytes(b):
                         ctx.report('property', f'export-geometry {fmt}: file {os.path.basename(a)} differs from the library output', case)
                         break
+            # the same through `python -m emsarray` in a fresh interpreter (first datasets of the run): a success and a failure
+            if n < (1 if quick else 4):
+                mout = os.path.join(tmp, f'mod_{n}.wkt')
+                mlib = os.path.join(tmp, f'modlib_{n}.wkt')
+                mcode, merr = run_module(['export-geometry', src, mout])
+                with warnings.catch_warnings():
+                    warnings.simplefilter('ignore')
+                    mlr = attempt(geometry_ops.write_wkt, ondisk, mlib)
+                ctx.count('python -m emsarray')
+                ctx.case((label, 'module', 'export'), True)
+                if mlr[0] == 'ok' and (mcode != 0 or not os.path.exists(mout) or file_bytes(mout) != file_bytes(mlib)):
+                    ctx.report('property', f'python -m emsarray export-geometry: status {mcode}, output '
+                               f'{"differs from" if os.path.exists(mout) else "missing, unlike"} the library output: {merr[-200:]}',
+                               {'dataset': label, 'command': ['python', '-m', 'emsarray', 'export-geometry', '<in>', 'mod.wkt']})
+                mcode, merr = run_module(['clip', src, '1,2,3,4,5', os.path.join(tmp, f'mod_bad_{n}.nc')])
+                ctx.case((label, 'module', 'failure'), True)
+                if mcode == 0 or os.path.exists(os.path.join(tmp, f'mod_bad_{n}.nc')):
+                    ctx.report('property', f'python -m emsarray clip with the unreadable geometry "1,2,3,4,5" ended with status {mcode}',
+                               {'dataset': label})
             code, err = run_cli(['export-geometry', src, os.path.join(tmp, f'cli_{n}.xyz')])
             ctx.count('export:unknown_extension')
             if code == 0 or os.path.exists(os.path.join(tmp, f'cli_{n}.xyz')):
@@ -407,6 +434,46 @@ def run(ctx):
                 shutil.rmtree(work, ignore_errors=True)
                 if diff:
                     ctx.report('property', f'clip output differs from dataset.ems.clip of the same geometry: {diff}', case)
+            # ---- two clips, one after the other, given the same --work_dir: each region is what its own argument says
+            # (run as separate `python -m emsarray` processes, as a user would: within one process the work files of the first
+            # clip are still held open by its lazily loaded result)
+            if len(set(xs)) > 2 and len(set(ys)) > 2 and n < (2 if quick else 8):
+                sx, sy = sorted(set(xs)), sorted(set(ys))
+                regions = [box(sx[0] - 0.5, sy[0] - 0.5, sx[1] + 0.01, sy[1] + 0.01), box(sx[-2] - 0.01, sy[-2] - 0.01, sx[-1] + 0.5, sy[-1] + 0.5)]
+                wdir = tempfile.mkdtemp(prefix='shared_work_', dir=tmp)
+                for k, geom in enumerate(regions):
+                    b = geom.bounds
+                    arg = ','.join(repr(float(v)) for v in b)
+                    out = os.path.join(tmp, f'cli_shared_{n}_{k}.nc')
+                    code, err = run_module(['clip', '--work_dir', wdir, '--', src, arg, out])
+                    case = {'dataset': label, 'command': ['clip', '--work_dir', '<dir used by the previous clip>', '--', '<in>', arg, '<out>'],
+                            'run': k}
+                    ctx.case((label, 'clip_shared_work_dir', k), True)
+                    ctx.count('clip:work_dir shared by two runs')
+                    work = tempfile.mkdtemp(prefix='clipwork_', dir=tmp)
+                    with warnings.catch_warnings():
+                        warnings.simplefilter('ignore')
+                        lr = attempt(lambda: emsarray.open_dataset(src).ems.clip(geom, work_dir=work))
+                        lib = os.path.join(tmp, f'lib_shared_{n}_{k}.nc')
+                        if lr[0] == 'ok':
+                            lw = attempt(lambda: lr[1].ems.to_netcdf(lib))
+                            if lw[0] != 'ok':
+                                lr = lw
+                    if lr[0] != 'ok' or code != 0:
+                        if (lr[0] == 'ok') != (code == 0):
+                            ctx.report('property', f'clip with --work_dir: command status {code}, library {lr[0]} ({err[-200:]})', case)
+                        shutil.rmtree(work, ignore_errors=True)
+                        continue
+                    with warnings.catch_warnings():
+                        warnings.simplefilter('ignore')
+                        a, b2 = xarray.open_dataset(out), xarray.open_dataset(lib)
+                        a.load(), b2.load()
+                        a.close(), b2.close()
+                    diff = datasets_equal(a, b2)
+                    shutil.rmtree(work, ignore_errors=True)
+                    if diff:
+                        ctx.report('property', f'clip given a work directory used by an earlier clip differs from dataset.ems.clip of '
+                                   f'the same region: {diff}', case)
             # ---- failures the user can cause
             code, err = run_cli(['clip', os.path.join(tmp, 'nope.nc'), '1,2,3,4', os.path.join(tmp, 'o.nc')])
             ctx.count('failure:missing_input')
